@@ -6,7 +6,7 @@
 From Coq Require Import List Bool Arith.
 Import ListNotations.
 From MV Require Import Static.Attrs Static.AttrsP.
-From MV Require Gen.InOrOutSet Static.SetsTie.
+From MV Require Gen.InOrOutSet Static.SetsTie Gen.ParseAttrs Static.AttrsTie.
 
 Theorem C12_difference : forall x a b, mem x (isub a b) = mem x a && negb (mem x b).
 Proof. exact mem_isub. Qed.
@@ -61,3 +61,11 @@ Proof.
   split; [exact MV.Static.SetsTie.tie_eq|]. split; [exact MV.Static.SetsTie.tie_contains|exact MV.Static.SetsTie.tie_parse_set_triple].
 Qed.
 Print Assumptions C12_generated_set_algebra_is_the_model.
+
+(* tie to the source: parse_attrs as regenerated from mosaik/scenario.py on every run (Gen/ParseAttrs.v; it calls the
+   generated parse_set_triple and set equality) is the specification the theorems above are about, for every model
+   description and simulator type *)
+Theorem C12_generated_parse_attrs_is_the_model : forall d ty,
+  MV.Gen.ParseAttrs.parse_attrs d ty = MV.Static.Attrs.parse_attrs d ty.
+Proof. exact MV.Static.AttrsTie.tie_parse_attrs. Qed.
+Print Assumptions C12_generated_parse_attrs_is_the_model.
